@@ -532,3 +532,94 @@ package loader
 //@   modifies *
 //@   ensures lex.lexEventType == lexeme.NewLine ==> normal && tag(result) == 0 && *old(nl.nodesPerCurrentLineCount) == 0 && nl.leaf == old(nl.leaf)
 //@   ensures lex.lexEventType == lexeme.EndTop ==> normal && tag(result) == 0 && *old(nl.nodesPerCurrentLineCount) == old(*nl.nodesPerCurrentLineCount) && nl.leaf == old(nl.leaf)
+
+// the grammar of an inline enum value: `[` items `]` or `@Rule`; an item is a literal,
+// optionally followed by a note; line structure is the scanner's business
+//@ func (*enumValueLoader).begin(lex)
+//@   props C18
+//@   requires l != nil
+//@   maypanic
+//@   modifies l.stateFunc
+//@   ensures panics <==> !(lex.lexEventType == lexeme.ArrayBegin || lex.lexEventType == lexeme.MixedValueBegin)
+//@   ensures lex.lexEventType == lexeme.ArrayBegin ==> boundis(l.stateFunc, enumValueLoader, "arrayItemBeginOrArrayEnd")
+//@   ensures lex.lexEventType == lexeme.MixedValueBegin ==> boundis(l.stateFunc, enumValueLoader, "ruleNameBegin")
+//@   ensures panics ==> typeis(pv, errors.ErrorCode) && unbox(pv, errors.ErrorCode) == errors.ErrInvalidValueInEnumRule
+//@ func (*enumValueLoader).arrayItemBeginOrArrayEnd(lex)
+//@   props C18
+//@   requires l != nil
+//@   maypanic
+//@   modifies l.stateFunc, l.inProgress
+//@   ensures panics <==> !(lex.lexEventType == lexeme.ArrayItemBegin || lex.lexEventType == lexeme.ArrayEnd || lex.lexEventType == lexeme.InlineAnnotationBegin)
+//@   ensures lex.lexEventType == lexeme.ArrayItemBegin ==> boundis(l.stateFunc, enumValueLoader, "literal") && l.inProgress == old(l.inProgress)
+//@   ensures lex.lexEventType == lexeme.ArrayEnd ==> boundis(l.stateFunc, enumValueLoader, "endOfLoading") && !l.inProgress
+//@   ensures lex.lexEventType == lexeme.InlineAnnotationBegin ==> boundis(l.stateFunc, enumValueLoader, "commentStart") && l.inProgress == old(l.inProgress)
+//@ func (*enumValueLoader).commentStart(lex)
+//@   props C18
+//@   requires l != nil
+//@   maypanic
+//@   modifies l.stateFunc
+//@   ensures panics <==> lex.lexEventType != lexeme.InlineAnnotationTextBegin
+//@   ensures normal ==> boundis(l.stateFunc, enumValueLoader, "commentEnd")
+//@ func (*enumValueLoader).annotationEnd(lex)
+//@   props C18
+//@   requires l != nil
+//@   maypanic
+//@   modifies l.stateFunc
+//@   ensures panics <==> lex.lexEventType != lexeme.InlineAnnotationEnd
+//@   ensures normal ==> boundis(l.stateFunc, enumValueLoader, "arrayItemBeginOrArrayEnd")
+//@ func (*enumValueLoader).arrayItemEnd(lex)
+//@   props C18
+//@   requires l != nil
+//@   maypanic
+//@   modifies l.stateFunc
+//@   ensures panics <==> lex.lexEventType != lexeme.ArrayItemEnd
+//@   ensures normal ==> boundis(l.stateFunc, enumValueLoader, "arrayItemBeginOrArrayEnd")
+//@ func (*enumValueLoader).ruleNameBegin(lex)
+//@   props C18
+//@   requires l != nil
+//@   maypanic
+//@   modifies l.stateFunc
+//@   ensures panics <==> lex.lexEventType != lexeme.TypesShortcutBegin
+//@   ensures normal ==> boundis(l.stateFunc, enumValueLoader, "ruleName")
+
+// the grammar of one rule-set of an `or` list
+//@ func (*orRuleSetLoader).objectBegin(lex)
+//@   props C03 C08
+//@   requires s != nil
+//@   maypanic
+//@   modifies s.stateFunc
+//@   ensures panics <==> lex.lexEventType != lexeme.ObjectBegin
+//@   ensures normal ==> boundis(s.stateFunc, orRuleSetLoader, "keyOrObjectEnd")
+//@ func (*orRuleSetLoader).valueBegin(lex)
+//@   props C03 C08
+//@   requires s != nil
+//@   maypanic
+//@   modifies s.stateFunc
+//@   ensures panics <==> lex.lexEventType != lexeme.ObjectValueBegin
+//@   ensures normal ==> boundis(s.stateFunc, orRuleSetLoader, "valueLiteral")
+//@ func (*orRuleSetLoader).valueEnd(lex)
+//@   props C03 C08
+//@   requires s != nil
+//@   maypanic
+//@   modifies s.stateFunc
+//@   ensures panics <==> lex.lexEventType != lexeme.ObjectValueEnd
+//@   ensures normal ==> boundis(s.stateFunc, orRuleSetLoader, "keyOrObjectEnd")
+//@ func (*orRuleSetLoader).afterShortcutEnd(lex)
+//@   props C03 C08
+//@   requires s != nil
+//@   maypanic
+//@   modifies s.stateFunc
+//@   ensures panics <==> lex.lexEventType != lexeme.MixedValueEnd
+//@   ensures normal ==> boundis(s.stateFunc, orRuleSetLoader, "valueEnd")
+// a literal-valued rule inside a rule-set goes through the same constructor as on a node
+//@ func (*orRuleSetLoader).valueLiteral(lex)
+//@   props C03 C08 C13
+//@   requires s != nil && s.typeRoot != nil && isNode(s.node) && lexWF(s.ruleNameLex) && lexWF(lex)
+//@   requires s.typeRoot.constraints != nil && s.typeRoot.constraints.mx.held == 0 && wfConstraints(s.typeRoot.constraints)
+//@   requires lex.end + 1 - lex.begin <= 1000000000000 && s.ruleNameLex.end + 1 - s.ruleNameLex.begin <= 1000000000000
+//@   maypanic
+//@   modifies *
+//@   ensures lex.lexEventType == lexeme.LiteralBegin ==> normal
+//@   ensures lex.lexEventType != lexeme.LiteralBegin && lex.lexEventType != lexeme.LiteralEnd ==> panics && typeis(pv, errors.ErrorCode) && unbox(pv, errors.ErrorCode) == errors.ErrLiteralValueExpected
+//@   ensures lex.lexEventType == lexeme.LiteralEnd && !old(knownRuleName(ruleNameText(lexBytes(s.ruleNameLex))))
+//@           ==> panics && typeis(pv, errors.DocumentError) && unbox(pv, errors.DocumentError).code == errors.ErrUnknownRule && unbox(pv, errors.DocumentError).index == old(s.ruleNameLex.begin)
